@@ -26,11 +26,24 @@ fn node_id(i: u64) -> NodeId {
     raw[24..32].copy_from_slice(&i.to_be_bytes());
     NodeId::new(&raw)
 }
+/// index of the unspecified address of a family (0.0.0.0 / ::) in the address pools: a PONG may report it like any
+/// other address (a peer behind some middleboxes, a peer that lies), and it is a vote like any other
+const UNSPEC: u64 = 49;
 fn addr4(i: u64) -> SocketAddrV4 {
+    if i == UNSPEC {
+        return SocketAddrV4::new(Ipv4Addr::UNSPECIFIED, 30000 + i as u16);
+    }
     SocketAddrV4::new(Ipv4Addr::new(192, 0, 2, i as u8 + 1), 30000 + i as u16)
 }
 fn addr6(j: u64) -> SocketAddrV6 {
+    if j == UNSPEC {
+        return SocketAddrV6::new(Ipv6Addr::UNSPECIFIED, 31000 + j as u16, 0, 0);
+    }
     SocketAddrV6::new(Ipv6Addr::new(0x2001, 0xdb8, 0, 0, 0, 0, 0, j as u16 + 1), 31000 + j as u16, 0, 0)
+}
+/// the unspecified address of a family as a reported socket
+fn unspec(v6: bool) -> Sock {
+    (v6, if v6 { 101 + UNSPEC } else { 1 + UNSPEC })
 }
 /// (is_v6, code): code i+1 for addr4(i), 101+j for addr6(j)
 type Sock = (bool, u64);
@@ -42,10 +55,10 @@ fn sock_addr(s: Sock) -> SocketAddr {
     }
 }
 fn code4(a: &SocketAddrV4) -> u64 {
-    (0..32).find(|i| addr4(*i) == *a).map(|i| i + 1).unwrap_or(999)
+    (0..32).chain(UNSPEC..UNSPEC + 1).find(|i| addr4(*i) == *a).map(|i| i + 1).unwrap_or(999)
 }
 fn code6(a: &SocketAddrV6) -> u64 {
-    (0..32).find(|j| addr6(*j) == *a).map(|j| j + 101).unwrap_or(999)
+    (0..32).chain(UNSPEC..UNSPEC + 1).find(|j| addr6(*j) == *a).map(|j| j + 101).unwrap_or(999)
 }
 fn coq_sock(s: Sock) -> String {
     format!("({}, {})", coq_bool(s.0), s.1)
@@ -208,7 +221,9 @@ struct VCase {
 const NPROBE_SMALL: u64 = 64; // leading counts 2..=65, each probed at the boundary
 
 fn gen_probe(idx: u64, rng: &mut Rng) -> VCase {
-    let m = if idx < NPROBE_SMALL { idx + 2 } else { rng.range(66, 400) };
+    // the first two of the large probes are crowds: more than a thousand voters with a live vote at the same time
+    // (a busy node, a long vote duration) - every one of them counts, the first like the last
+    let m = if idx < NPROBE_SMALL { idx + 2 } else if idx < NPROBE_SMALL + 2 { rng.range(610, 780) } else { rng.range(66, 400) };
     let thr = clear_majority_threshold(m as usize) as u64;
     let mut ops = vec![];
     let v6 = rng.chance(1, 4);
@@ -230,7 +245,7 @@ fn gen_probe(idx: u64, rng: &mut Rng) -> VCase {
     // a voter of the leader changes its mind
     ops.push(VOp::Insert(0, b));
     ops.push(VOp::Majority);
-    VCase { min: 2, dur_ns: 3_600_000_000_000, ops, kind: "probe" }
+    VCase { min: 2, dur_ns: 3_600_000_000_000, ops, kind: if m >= 600 { "probe_crowd" } else { "probe" } }
 }
 
 fn gen_script(rng: &mut Rng, thorough: bool) -> VCase {
@@ -260,6 +275,7 @@ fn gen_script(rng: &mut Rng, thorough: bool) -> VCase {
                     _ => rng.below(k),
                 };
                 let s: Sock = if v6 { (true, 101 + which) } else { (false, 1 + which) };
+                let s = if rng.chance(1, 12) { unspec(v6) } else { s };
                 ops.push(VOp::Insert(node, s));
                 ops.push(VOp::Majority);
             }
@@ -445,6 +461,8 @@ fn random_step(rng: &mut Rng, dur_ns: u64, n4: u64, n6: u64, v6_share: u64, wsel
         _ => rng.below(k),
     };
     let sock: Sock = if v6 { (true, 101 + which) } else { (false, 1 + which) };
+    // now and then the PONG reports the unspecified address of the family
+    let sock = if rng.chance(1, 10) { unspec(v6) } else { sock };
     let status = if peer >= 9 {
         None
     } else {
@@ -471,10 +489,62 @@ fn shuffle<T>(rng: &mut Rng, v: &mut [T]) {
 }
 
 fn gen_scase(rng: &mut Rng, thorough: bool) -> SCase {
-    match rng.weighted(&[5, 3, 2]) {
+    match rng.weighted(&[5, 3, 2, 2]) {
         0 => gen_scase_random(rng, thorough),
         1 => gen_scase_tip(rng, thorough, false),
-        _ => gen_scase_tip(rng, thorough, true),
+        2 => gen_scase_tip(rng, thorough, true),
+        _ => gen_scase_withdrawn(rng, thorough),
+    }
+}
+
+/// Scripts in which the quorum for an address is never complete at any one moment: `min` (or a few more) eligible
+/// voters report A one after the other, but before the last of them does, one or more of the earlier ones have
+/// changed their mind and reported something else (another address of the family, the unspecified address, or - in
+/// the other variant - the same address again, which changes nothing). When the last A vote arrives, A is the most
+/// recent vote of fewer voters than it has ever had: the record must not move to A unless the current votes carry
+/// it. A random tail follows.
+fn gen_scase_withdrawn(rng: &mut Rng, thorough: bool) -> SCase {
+    let dur_ns = 80_000_000u64;
+    let min = rng.range(2, 4) as usize;
+    let dual = rng.chance(1, 2);
+    let v6 = rng.chance(1, 2);
+    let base: u64 = if v6 { 101 } else { 1 };
+    let ca = rng.below(3);
+    let n = min as u64 + rng.below(2);
+    let mut voters: Vec<usize> = (0..9).collect();
+    shuffle(rng, &mut voters);
+    let eligible = Some((true, false));
+    let mut steps: Vec<SStep> = vec![];
+    // all but the last report A
+    for p in voters.iter().take(n as usize - 1) {
+        steps.push(SStep { peer: *p, sock: (v6, base + ca), status: eligible, full_path: rng.chance(1, 2), sleep_ns: 0 });
+    }
+    // some of them change their mind
+    let k = rng.range(1, (n - 1).min(2));
+    for p in voters.iter().take(k as usize) {
+        let sock = match rng.below(4) {
+            0 => (v6, base + ca), // says A again
+            1 | 2 => unspec(v6),
+            _ => (v6, base + (ca + 1 + rng.below(3)) % 5),
+        };
+        steps.push(SStep { peer: *p, sock, status: if rng.chance(3, 4) { eligible } else { None }, full_path: rng.chance(3, 4), sleep_ns: 0 });
+    }
+    // the last one reports A
+    steps.push(SStep { peer: voters[n as usize - 1], sock: (v6, base + ca), status: eligible, full_path: rng.chance(1, 2), sleep_ns: 0 });
+    let (n4, n6) = if v6 { (2, 5) } else { (5, if dual { 2 } else { 0 }) };
+    let ntail = if thorough { rng.range(4, 24) } else { rng.range(2, 12) };
+    for _ in 0..ntail {
+        steps.push(random_step(rng, dur_ns, n4, n6, if v6 { 7 } else { 3 }, &[4, 3, 3]));
+    }
+    SCase {
+        min,
+        dur_ns,
+        dual,
+        auto_nat: rng.chance(1, 2),
+        init4: if v6 { if rng.chance(1, 3) { Some(1) } else { None } } else if rng.chance(1, 3) { Some(base + (ca + 1) % 5) } else { None },
+        init6: if v6 && rng.chance(1, 3) { Some(base + (ca + 1) % 5) } else { None },
+        steps,
+        kind: "quorum_never_complete_at_one_moment",
     }
 }
 
@@ -526,6 +596,10 @@ fn gen_scase_tip(rng: &mut Rng, thorough: bool, by_expiry: bool) -> SCase {
     // which of the family's addresses play A and B (so that neither is always the lowest code)
     let (ca, cb) = *rng.pick(&[(0u64, 1u64), (1, 0), (2, 0), (0, 2)]);
     let mut third: Vec<u64> = (0..5).filter(|c| *c != ca && *c != cb).collect();
+    if rng.chance(1, 2) {
+        // one of the "third addresses" voters move to is the unspecified address of the family
+        third.push(UNSPEC);
+    }
     shuffle(rng, &mut third);
     let mut voters: Vec<usize> = (0..9).collect();
     shuffle(rng, &mut voters);
@@ -1245,6 +1319,7 @@ mod lp {
                         _ => rng.below(k),
                     };
                     let s: Sock = if v6 { (true, 101 + which) } else { (false, 1 + which) };
+                    let s = if rng.chance(1, 10) { unspec(v6) } else { s };
                     let sa = sock_addr(s);
                     let conn_out = matches!(table_status(&w.svc, &na.node_id), Some((true, false)));
                     let eligible = conn_out && !w.blocked[v6 as usize];
@@ -1547,9 +1622,9 @@ pub fn main(args: &[String]) {
     w.flush();
     sum.case_files = w.files.clone();
     sum.rule = if is_service {
-        "PONG scripts against a real Service (no handler task): minimum 2..5, vote_duration 80 ms on the real clock, IPv4-only and dual-stack mode; half of the cases are random scripts over 2-3 IPv4 and 0-4 IPv6 reported addresses (share of IPv6 PONGs 2/10..7/10, primary : rival : other address 6:3:1 .. 4:3:3), 3/10 are scripts in which a majority becomes clear through a PONG for ANOTHER address (a = 3..5 eligible voters for A against b voters for B with threshold(a) <= b <= a, B reported first, then B voters defect one by one to third addresses) and 2/10 the same with the rival running out instead (B reported, half a vote duration later A, 6/10 of a vote duration later a PONG for a third address or for B), two thirds of both in the IPv6 family, followed by a random tail; 12 voters of which 3 are never in the routing table, the voter's table status (connected/outgoing, connected/incoming, disconnected, unchanged) set before each PONG and read back, half of the PONGs through handle_rpc_response and half through handle_ip_vote_from_pong, sleeps of 1/3 and 5/4 of the vote duration, initial record with or without an address; a case ends at the first time-ambiguous step; every change of the record is compared with the bounds the votes sent give (distinct voters ever, possible current voters, certain rivals) and, when the votes sent determine it (every live voter's most recent PONG certainly counted, no expiry inside the measured bracket), with the monitor's own tally of the most recent unexpired vote per voter; non-trivial = the record's address changed at least once; distinct = new observation trace".to_string()
+        "PONG scripts against a real Service (no handler task): minimum 2..5, vote_duration 80 ms on the real clock, IPv4-only and dual-stack mode; half of the cases are random scripts over 2-3 IPv4 and 0-4 IPv6 reported addresses (share of IPv6 PONGs 2/10..7/10, primary : rival : other address 6:3:1 .. 4:3:3), 3/10 are scripts in which a majority becomes clear through a PONG for ANOTHER address (a = 3..5 eligible voters for A against b voters for B with threshold(a) <= b <= a, B reported first, then B voters defect one by one to third addresses) and 2/10 the same with the rival running out instead (B reported, half a vote duration later A, 6/10 of a vote duration later a PONG for a third address or for B), two thirds of both in the IPv6 family, followed by a random tail; 2/12 of the cases are scripts in which the quorum for an address is never complete at one moment (min..min+1 voters report A, but before the last does 1-2 of the earlier ones report something else: another address, the unspecified address, or A again); one PONG in ten of the random parts reports the unspecified address (0.0.0.0 / ::) of its family, which is a vote like any other; 12 voters of which 3 are never in the routing table, the voter's table status (connected/outgoing, connected/incoming, disconnected, unchanged) set before each PONG and read back, half of the PONGs through handle_rpc_response and half through handle_ip_vote_from_pong, sleeps of 1/3 and 5/4 of the vote duration, initial record with or without an address; a case ends at the first time-ambiguous step; every change of the record is compared with the bounds the votes sent give (distinct voters ever, possible current voters, certain rivals) and, when the votes sent determine it (every live voter's most recent PONG certainly counted, no expiry inside the measured bracket), with the monitor's own tally of the most recent unexpired vote per voter; non-trivial = the record's address changed at least once; distinct = new observation trace".to_string()
     } else {
-        format!("IpVote through IpVoteFacade on the real clock: first {} boundary probes (leading count 2..65 and random counts up to 400, rival one below / at the code's threshold, then a voter changing its vote; vote_duration 1 h), then scripts with minimum 2..6, vote_duration 30 ms, up to 14 voters, 2-4 IPv4 and 0-3 IPv6 addresses (primary : rival : other = 6:3:1), majority() after every insert, has_minimum_threshold(), sleeps of 1/3 and 6/5 of the vote duration; steps whose result could depend on where in the measured bracket the clock was read are skipped and counted; non-trivial = some majority existed or a leader was denied by a rival; distinct = new observation trace", nprobe)
+        format!("IpVote through IpVoteFacade on the real clock: first {} boundary probes (leading count 2..65, two crowds of 610..780 leading voters - more than 1024 live votes in all - and random counts up to 400, rival one below / at the code's threshold, then a voter changing its vote; vote_duration 1 h), then scripts with minimum 2..6, vote_duration 30 ms, up to 14 voters, 2-4 IPv4 and 0-3 IPv6 addresses (primary : rival : other = 6:3:1), majority() after every insert, has_minimum_threshold(), sleeps of 1/3 and 6/5 of the vote duration; steps whose result could depend on where in the measured bracket the clock was read are skipped and counted; non-trivial = some majority existed or a leader was denied by a rival; distinct = new observation trace", nprobe)
     };
     sum.write(&o.out);
     println!(
